@@ -34,6 +34,23 @@ CLAIMED = {
         "Tied to the code by the generated table, byte-for-byte comparison with signing bytes validated against real signatures, "
         "and tamper monitors on Entry.Verify.",
    technique="Coq proof modulo signature oracle + Go-AST generated field table + differential correspondence vs Go", design="6/C07"),
+ "C13": dict(
+   text="General theorems (Proofs/ConcProofs.v), proved once for any program given as event paths under a small-step semantics of "
+        "sync.RWMutex with writer preference: well-locked programs have no two conflicting accesses enabled at once (drf), writer "
+        "sections are exclusive and reader sections see whole writer sections, no path acquiring a lock while holding one => no "
+        "deadlock. About today's code (Props/C13.v): the lock/access skeleton of every IPFSLog method and OrderedMap method is "
+        "regenerated from log.go/log_io.go/entry_map.go by tools/genlocks on every run and the boolean facts well_locked / "
+        "no_nested_acquire / single_section are proved over it by vm_compute. Runtime half (interleavings, -race, watchdog, "
+        "append chain, structural soundness of concurrent reads) is exercised by the harness with forced preemption at the hooks; "
+        "the Go memory model (DRF=>SC), sync.RWMutex and the event abstraction are trusted.",
+   technique="Coq proof over lock skeleton regenerated from Go AST + race-detector/forced-schedule exploration", design="6/C13"),
+ "C14": dict(
+   text="Theorems (Props/C14.v) over the generated skeleton: Join performs no call on the other log while holding its own lock and reads "
+        "the source's heads exactly once and before its entries; hence (general theorem) cross-merges of any number of logs cannot "
+        "deadlock, and (model theorem C14_snapshot) for a source that only grows, the difference walk from heads@t1 inside "
+        "entries@t2>=t1 equals the walk on the consistent state at t1. Harness: merges parked at the join.* hooks while the source "
+        "is appended to / merged, symmetric cross-merges with a watchdog, under -race.",
+   technique="Coq proof over lock skeleton regenerated from Go AST + forced-schedule exploration", design="6/C14"),
 }
 NOT_YET = "machinery for this property is still being built in this round (see DESIGN.md section 10); not claimed yet"
 
@@ -63,7 +80,7 @@ m = {
    "guard": "verif",
    "enable": "go build -tags verif (the harness module replaces berty.tech/go-ipfs-log by /repo and is always built with -tags verif)",
    "baseline_off_cmd": "cd /repo && GOFLAGS=-mod=mod GOPROXY=off GOSUMDB=off GOTOOLCHAIN=local go test -json -vet=off -count=1 -timeout 25m ./...",
-   "source_commits": ["91e6abf"],
+   "source_commits": ["91e6abf", "0b04dcb"],
    "add_only": True,
  },
  "engines": [
